@@ -13,7 +13,8 @@
 From Coq Require Import String.
 From SLX Require Import Base gen.ValueSig gen.OpcodeTable gen.RulesSig SymVal Disasm VM Fold PassesSlots PassesSlotsCases Rules AbiT Layout Pipeline PipelineCases.
 From SLX Require Import gen.PipelineGlue.
-From SLX.proofs Require Import LayoutProofs PipelineProofs.
+From SLX Require Import PolledLoop Unify DisjointSet.
+From SLX.proofs Require Import LayoutProofs PolledLoopProofs PipelinePolls PipelineProofs PipelineWatchdog.
 Open Scope N_scope.
 
 (* the glue as the source has it on this run (translator step T10) is the glue Pipeline.v composes *)
@@ -92,10 +93,84 @@ Print Assumptions pipeline_table_only_through_constants.
 (* ... so the correspondence suite, which looks those constants up through an index of the implementation's table and
    runs the model with that sub-table, evaluates exactly the model with the full table *)
 Theorem pipeline_check_uses_full_table : forall table mode bytes cfg o real d,
-  fst (trace_of (build_index table) (PC mode bytes cfg o real d)) = analyze_trace (oracle_keccak o) table mode default_fuels bytes cfg.
+  fst (trace_of (build_index table) (PC mode bytes cfg o real d)) = analyze_trace (oracle_keccak o) table mode check_fuels bytes cfg.
 Proof. exact trace_of_uses_full_table. Qed.
 Print Assumptions pipeline_check_uses_full_table.
 
+
+(* ================================================================================================ the watchdog, end to end
+   Every polled loop of the model is the scheme of PolledLoop.v (so C13_loop_never_stop, C13_loop_stops_at_next_poll and
+   C13_loop_poll_rate apply to the loops of lift, assign_vars, infer, every round of unify and the layout loop) ... *)
+Theorem pipeline_polled_loops_are_ploop : forall (A St E : Type) (body : A -> St -> St + E) k items c w s,
+  forget (ploop_e body k items c w s) = ploop (forget_body body) k items c w s.
+Proof. exact @ploop_e_forget. Qed.
+Print Assumptions pipeline_polled_loops_are_ploop.
+
+(* ... the polled wrapper around Unify.v's rounds is `Unify.unify` itself when the watchdog never stops ... *)
+Theorem pipeline_unify_wrapper_is_unify : forall mode k fuel st w, stop_from w = None ->
+  match unify_polled mode k fuel st w with
+  | UDone s' n' _ _ => unify fuel (orders_of mode) st = Ok (s', n')
+  | UFail e _ => ures_res (unify fuel (orders_of mode) st) = inr e
+  | UStop _ => False
+  end.
+Proof. exact unify_polled_never_stop. Qed.
+Print Assumptions pipeline_unify_wrapper_is_unify.
+
+(* ... and the whole type checker with its watchdog returns what the unmonitored one returns, or a watchdog stop; with
+   the poll accounting: up to the stop index j while not stopped, exactly j + 1 when stopped *)
+Theorem pipeline_tc_plain_or_stop : forall keccak table mode fu lim polls0 det stored,
+  let tr := analyze_tc keccak table mode fu lim det stored polls0 in
+  let plain := analyze_plain keccak table mode fu stored in
+  (t_result tr = plain \/ exists st, t_result tr = PErrStopped st) /\
+  (stop_at lim = None -> t_result tr = plain) /\
+  polls0 <= t_polls tr /\
+  (forall j, stop_at lim = Some j -> polls0 <= j ->
+     (t_result tr = plain /\ t_polls tr <= j) \/ ((exists st, t_result tr = PErrStopped st) /\ t_polls tr = j + 1)).
+Proof. exact analyze_tc_spec. Qed.
+Print Assumptions pipeline_tc_plain_or_stop.
+
+(* (C13) with a watchdog that never stops the result does not depend on the polling interval (>= 1) *)
+Theorem pipeline_never_stop_interval_irrelevant : forall keccak table mode fu bytes c1 c2,
+  same_but_interval c1 c2 ->
+  analyze_model_fuel keccak table mode fu bytes c1 = analyze_model_fuel keccak table mode fu bytes c2.
+Proof. exact never_stop_interval_irrelevant. Qed.
+Print Assumptions pipeline_never_stop_interval_irrelevant.
+
+(* (C13) if the answer stream turns to stop at poll j and the run makes more than j polls, the result is the watchdog
+   stop -- StoppedByWatchdog from a type-checker stage, or the VM's error container holding StoppedByWatchdog -- never a
+   layout built from partial work (PFuelVm: the model's own VM fuel ran out, not a result of the Rust code) *)
+Theorem pipeline_stop_is_error : forall keccak table mode fu bytes (cfg : config) j,
+  stop_at cfg = Some j -> j < t_polls (analyze_trace keccak table mode fu bytes cfg) ->
+  watchdog_stop (analyze_model_fuel keccak table mode fu bytes cfg) \/ analyze_model_fuel keccak table mode fu bytes cfg = PFuelVm.
+Proof. exact stop_is_error. Qed.
+Print Assumptions pipeline_stop_is_error.
+
+Theorem pipeline_stop_is_not_a_layout : forall r l, watchdog_stop r -> r <> PLayout l.
+Proof. exact watchdog_stop_not_layout. Qed.
+Print Assumptions pipeline_stop_is_not_a_layout.
+
+(* (C13) B = poll_every + 1: after the stream has turned to stop at poll j the whole run makes at most
+   j + poll_every + 1 polls (a stop first seen by a bulk-copy loop kills that thread; the main loop goes on for at
+   most poll_every - 1 iterations, each of which can start one more copy loop that polls once, and stops at its own
+   next poll; every type-checker loop stops at its first poll) *)
+Theorem pipeline_stops_within_bound : forall keccak table mode fu bytes (cfg : config) j,
+  stop_at cfg = Some j -> t_polls (analyze_trace keccak table mode fu bytes cfg) <= j + poll_every cfg + 1.
+Proof. exact stops_within_bound. Qed.
+Print Assumptions pipeline_stops_within_bound.
+
+(* (C17) strict mode returns a layout => permissive mode returns the same layout *)
+Theorem pipeline_strict_success_same_as_permissive : forall keccak table mode fu bytes L l,
+  analyze_model_fuel keccak table mode fu bytes (mk_config' L false) = PLayout l ->
+  analyze_model_fuel keccak table mode fu bytes (mk_config' L true) = PLayout l.
+Proof. exact strict_success_same_as_permissive. Qed.
+Print Assumptions pipeline_strict_success_same_as_permissive.
+
+(* (C17) the VM errors permissive mode reports are among those strict mode reports *)
+Theorem pipeline_permissive_errors_subset : forall keccak table mode fu bytes L e,
+  analyze_model_fuel keccak table mode fu bytes (mk_config' L true) = PErrVm e ->
+  exists e', analyze_model_fuel keccak table mode fu bytes (mk_config' L false) = PErrVm e' /\ incl e e'.
+Proof. exact permissive_errors_subset. Qed.
+Print Assumptions pipeline_permissive_errors_subset.
 
 (* the hypotheses are satisfiable by non-trivial values: caller -> slot 0; slot 0 & address mask -> slot 1 gives two
    address rows; a program without storage opcodes the empty layout; a read of the literal key 2^64 a row at 2^64 *)
@@ -110,3 +185,13 @@ Example pipeline_examples :
        [51;95;85;115;255;255;255;255;255;255;255;255;255;255;255;255;255;255;255;255;255;255;255;255;95;84;22;96;1;85;0] ex_cfg
      = PLayout [(0, 0, AT "Address" [] []); (1, 0, AT "Address" [] [])].
 Proof. repeat split; vm_compute; reflexivity. Qed.
+
+(* the watchdog: the same program stopped at poll 33 of 1-spaced polls ends in assign_vars with 34 polls made; a
+   bad jump is an error in strict mode only *)
+Example pipeline_watchdog_examples :
+  let p := [51;95;85;115;255;255;255;255;255;255;255;255;255;255;255;255;255;255;255;255;255;255;255;255;95;84;22;96;1;85;0] in
+  let tr := analyze_trace (fun _ => 0) [] MSorted default_fuels p (mk_config 30000000 10 50 250 394 false 1 (Some 33)) in
+  t_result tr = PErrStopped 2 /\ t_polls tr = 34 /\
+  analyze_model (fun _ => 0) [] [96;9;86;0] (mk_config 30000000 10 50 250 394 false 100 None) = PErrVm [(2, ENonExistentJumpTarget)] /\
+  analyze_model (fun _ => 0) [] [96;9;86;0] (mk_config 30000000 10 50 250 394 true 100 None) = PLayout [].
+Proof. cbv zeta. repeat split; vm_compute; reflexivity. Qed.
